@@ -102,12 +102,12 @@ func (c *Ctx) watchdog() {
 		time.Sleep(200 * time.Millisecond)
 		c.mu.Lock()
 		if c.running && memTotal() > c.memLimit {
-			c.write(&Line{T: "V", I: c.idx, Oracle: "memory", Sig: "memory-budget", K: c.hint, Msg: fmt.Sprintf("process memory exceeded %d MiB during: %s", c.memLimit>>20, c.desc)})
+			c.write(&Line{T: "V", I: c.idx, Oracle: "memory", Sig: c.Check + "/memory-budget", K: c.hint, Msg: fmt.Sprintf("process memory exceeded %d MiB during: %s", c.memLimit>>20, c.desc)})
 			c.out.Sync()
 			os.Exit(3)
 		}
 		if c.running && cpuTime()-c.caseCPUStart > c.cpuLimit {
-			c.write(&Line{T: "V", I: c.idx, Oracle: "cpu", Sig: "cpu-budget", K: c.hint, Msg: fmt.Sprintf("case used more than %v of CPU time: %s", c.cpuLimit, c.desc)})
+			c.write(&Line{T: "V", I: c.idx, Oracle: "cpu", Sig: c.Check + "/cpu-budget", K: c.hint, Msg: fmt.Sprintf("case used more than %v of CPU time: %s", c.cpuLimit, c.desc)})
 			c.out.Sync()
 			os.Exit(3)
 		}
